@@ -792,7 +792,7 @@ class Where(EnvironmentFilter):
         n_fet = self._n_features
         n_fet = list(n_fet) if isinstance(n_fet,(list,tuple)) else [n_fet]*2
 
-        firstn = 1+next((v for v in [*n_int,0] if v is not None))
+        firstn = 1+next((v for v in [*n_int[::-1],0] if v is not None))
         first,interactions = peek_first(interactions, n=firstn, reduce=False)
 
         if not interactions:
